@@ -175,6 +175,9 @@ func genC12() *rapid.Generator[Case] {
 			// same length and another value - so the new records end on record boundaries of the failed ones
 			echo := Step{K: "tx", Managed: true}
 			for _, op := range bad.Ops[:rapid.IntRange(1, len(bad.Ops)).Draw(t, "echon")] {
+				if op.K == "spop" {
+					continue // SPop may hand out any member: main and twin could legitimately diverge
+				}
 				if op.K == "put" || op.K == "putts" {
 					for _, k := range kvKeys {
 						if len(k) == len(op.Key) && k != string(op.Key) {
@@ -186,7 +189,9 @@ func genC12() *rapid.Generator[Case] {
 				}
 				echo.Ops = append(echo.Ops, op)
 			}
-			steps = append(steps, echo)
+			if len(echo.Ops) > 0 {
+				steps = append(steps, echo)
+			}
 		}
 		if rapid.Bool().Draw(t, "reopenafter") {
 			steps = append(steps, Step{K: "reopen"})
